@@ -1,2 +1,5 @@
 -- Root of the `TrionModel` library: everything that `lake build` must check.
 import TrionModel.Props.C17
+import TrionModel.Props.C01
+import TrionModel.Props.C02
+import TrionModel.Props.C03
